@@ -106,6 +106,14 @@ def replay_case(arg):
                                      for k_, n_ in enumerate(p_.get_parameter_names())},
                                     coords={'chain': [0], 'draw': [0, 1], 'individual': ['a']})
                     return chi.PosteriorPredictiveModel(p_, ds)
+                # ... and through the fixed-parameter wrapper of the mechanistic model (all five arguments reach the model)
+                m_r = chi.PKPDModel(path)
+                m_r.set_administration('global', amount_var=target, direct=direct)
+                red_r = chi.ReducedMechanisticModel(m_r)
+                red_r.set_dosing_regimen(dose, start, dur, period, num)
+                got_r = refsim.protocol_events(red_r.dosing_regimen())
+                if got_r != ((dose / dur, start, dur, float(rec['evperiod']), rec['evmult']),):
+                    fail('Translate', 'event_through_reduced_wrapper', dict(got=got_r))
                 via = [('PredictiveModel.set_dosing_regimen', undosed())]
                 via.append(('PosteriorPredictiveModel.set_dosing_regimen', posterior_over(undosed())))
                 members = [posterior_over(undosed()) for _ in range(3)]
